@@ -503,7 +503,8 @@ def build_cases(ctx):
     hn = 0
     for label, mb in cases:
         m = mb.m
-        if len(m['classes']) > 1 and m['classes'][1]['fields'] and not m.get('named_alias'):
+        if len(m['classes']) > 1 and m['classes'][1]['fields'] and not m.get('named_alias') \
+                and all(predicted_clean(f['ty'], m) and json_keys_ok(f['ty'], m) for f in m['classes'][1]['fields']):
             hn += 1
             if hn % 2 == 0 or m.get('history_kind'):
                 rh = ctx.sub_rng('hist', label, mb.mi)
